@@ -57,6 +57,8 @@ Lemma Q_set_outs o m : Q (set_outs o m) = Q m. Proof. reflexivity. Qed.
 Lemma Q_set_choices o m : Q (set_choices o m) = Q m. Proof. reflexivity. Qed.
 Lemma Q_set_hs o m : Q (set_hs o m) = Q m. Proof. reflexivity. Qed.
 Lemma Q_switch m : Q (switch_layer m) = Q m. Proof. reflexivity. Qed.
+Lemma Q_set_rdy b m : Q (set_rdy b m) = Q m. Proof. reflexivity. Qed.
+Lemma H_set_rdy b m : H (set_rdy b m) <-> H m. Proof. reflexivity. Qed.
 Lemma H_set_bits b m : H (set_bits b m) <-> H m. Proof. reflexivity. Qed.
 Lemma H_set_negd l m : H (set_negd l m) <-> H m. Proof. reflexivity. Qed.
 Lemma H_set_list ca t r m : H (set_list ca t r m) <-> H m. Proof. reflexivity. Qed.
@@ -79,7 +81,9 @@ Record RI (rv : bool) (x : option feature) (m : mstate) : Prop := mkRI {
   ri_rdy : has (m_bits m) st_Ready = true -> q_self_ready (Q m) = true;
   ri_lreq : forall g, In (true, g) (m_cache m) -> m_lreq m = true;
   ri_adv : forall r g, In (r, g) (m_cache m) -> In (fname g) (q_adv (Q m));
-  ri_uk : ukeys (m_cache m) }.
+  ri_uk : ukeys (m_cache m);
+  ri_flag : m_rdy m = true -> q_self_ready (Q m) = true;
+  ri_nrdy : has (m_bits m) st_Ready = false }.
 
 (* events a running feature produces itself: they change nothing in the monitor *)
 Definition quiet (q : mon) (e : event) : Prop :=
@@ -121,15 +125,16 @@ Qed.
 
 (* what the functions below leave alone *)
 Definition frame (m m' : mstate) : Prop :=
-  m_bits m' = m_bits m /\ m_negd m' = m_negd m /\ m_cache m' = m_cache m /\ m_lreq m' = m_lreq m /\ m_total m' = m_total m.
+  m_bits m' = m_bits m /\ m_negd m' = m_negd m /\ m_cache m' = m_cache m /\ m_lreq m' = m_lreq m /\ m_total m' = m_total m /\
+  m_rdy m' = m_rdy m.
 
 Lemma frame_refl m : frame m m.
 Proof. unfold frame. tauto. Qed.
 
 Lemma RI_frame rv x m m' : frame m m' -> Q m' = Q m -> RI rv x m -> RI rv x m'.
 Proof.
-  intros (Fb & Fn & Fc & Fl & Ft) HQ R. destruct R.
-  constructor; rewrite ?HQ, ?Fb, ?Fn, ?Fc, ?Fl; auto.
+  intros (Fb & Fn & Fc & Fl & Ft & Fr) HQ R. destruct R.
+  constructor; rewrite ?HQ, ?Fb, ?Fn, ?Fc, ?Fl, ?Fr; auto.
 Qed.
 
 (* reading the reply inside STARTTLS's Negotiate *)
@@ -236,58 +241,70 @@ Definition PostPick (rv : bool) (m' : mstate) (r : res (option (N * bool))) : Pr
       (restart = false -> RI rv None m') /\
       (has (N.lor (m_bits m') mask) st_Ready = false -> N.lor (m_bits m') mask = m_bits m') /\
       (has (N.lor (m_bits m') mask) st_Ready = true ->
-       q_self_ready (Q m') = true \/ (restart = false /\ ~ pending (Q m'))) /\
+       restart = false /\ (q_self_ready (Q m') = true \/ ~ pending (Q m'))) /\
       bits_plus_ready (m_bits m') mask
   | _ => True
   end.
+
+Lemma has_clear_ready b : has (clear_ready b) st_Ready = false.
+Proof.
+  rewrite has_ready_testbit. unfold clear_ready. rewrite N.ldiff_spec.
+  change (N.testbit st_Ready 2) with true. apply andb_false_r.
+Qed.
 
 Lemma after_pick_ok rv x m req f m' r :
   after_pick c m req f = (m', r) -> H m -> RI rv x m -> pick_ok rv x m req f -> PostPick rv m' r.
 Proof.
   unfold after_pick. intros E HH R PK.
   destruct (negotiate_one c m f) as [m1 o] eqn:En.
-  destruct (negotiate_one_ok rv x m f m1 o En HH R (pick_neg_ok rv x m req f R PK)) as (A & B & (Fb & Fn & Fc & Fl & Ft)).
+  destruct (negotiate_one_ok rv x m f m1 o En HH R (pick_neg_ok rv x m req f R PK)) as (A & B & (Fb & Fn & Fc & Fl & Ft & Fr)).
   destruct R.
   destruct (o_err o) eqn:Eerr.
   - (* the feature failed *)
     inversion E; subst; clear E. unfold PostPick.
     rewrite Q_set_negd, B. simpl. rewrite Eerr. repeat split; auto.
-  - remember (set_bits (N.lor (m_bits m1) (o_mask o)) m1) as m2 eqn:Em2.
+  - remember (set_rdy (m_rdy m1 || has (o_mask o) st_Ready) (set_bits (N.lor (m_bits m1) (eff_mask o)) m1)) as m2 eqn:Em2.
     remember (set_negd (f_space f :: m_negd m2) m2) as m3 eqn:Em3.
-    assert (HQ : Q m3 = upd fs ws (Q m) (ENeg f (m_bits m) o)) by (subst m3 m2; rewrite Q_set_negd, Q_set_bits; exact B).
-    assert (Hb3 : m_bits m3 = N.lor (m_bits m) (o_mask o)) by (subst m3 m2; simpl; rewrite Fb; reflexivity).
+    assert (HQ : Q m3 = upd fs ws (Q m) (ENeg f (m_bits m) o)) by (subst m3 m2; rewrite Q_set_negd, Q_set_rdy, Q_set_bits; exact B).
+    assert (Hb3 : m_bits m3 = N.lor (m_bits m) (eff_mask o)) by (subst m3 m2; simpl; rewrite Fb; reflexivity).
     assert (Hn3 : m_negd m3 = f_space f :: m_negd m) by (subst m3 m2; simpl; rewrite Fn; reflexivity).
     assert (Hc3 : m_cache m3 = m_cache m) by (subst m3 m2; simpl; exact Fc).
     assert (Hl3 : m_lreq m3 = m_lreq m) by (subst m3 m2; simpl; exact Fl).
+    assert (Hr3 : m_rdy m3 = m_rdy m || has (o_mask o) st_Ready) by (subst m3 m2; simpl; rewrite Fr; reflexivity).
+    assert (Hnr3 : has (m_bits m3) st_Ready = false).
+    { rewrite Hb3, has_ready_lor, ri_nrdy0. unfold eff_mask. rewrite has_clear_ready. reflexivity. }
+    assert (Hflag : m_rdy m3 = true -> q_self_ready (Q m3) = true).
+    { rewrite Hr3, HQ. simpl. rewrite Eerr. intro X. apply orb_true_iff in X. destruct X as [X|X].
+      - rewrite (ri_flag0 X). reflexivity.
+      - rewrite X. apply orb_true_r. }
     assert (HR : o_restart o = false -> RI rv None m3).
     { intro Er. constructor; rewrite ?HQ, ?Hb3, ?Hn3, ?Hc3, ?Hl3; simpl; rewrite ?Eerr, ?Er; auto.
       - rewrite ri_negd0. reflexivity.
-      - rewrite has_ready_lor. intro X. apply orb_true_iff in X. destruct X as [X|X].
-        + rewrite (ri_rdy0 X). reflexivity.
-        + rewrite X. apply orb_true_r. }
-    assert (Hself : has (m_bits m3) st_Ready = true -> q_self_ready (Q m3) = true).
-    { rewrite HQ, Hb3, has_ready_lor. simpl. rewrite Eerr. intro X. apply orb_true_iff in X. destruct X as [X|X].
-      - rewrite (ri_rdy0 X). reflexivity.
-      - rewrite X. apply orb_true_r. }
+      - rewrite <- Hb3, Hnr3. discriminate.
+      - intro X. pose proof (Hflag X) as Y. rewrite HQ in Y. simpl in Y. rewrite Eerr in Y. exact Y.
+      - rewrite <- Hb3. exact Hnr3. }
     assert (Hbase : H m3 /\ q_last (Q m3) = m_bits m3 /\ q_refused (Q m3) = None /\ q_expect (Q m3) = None).
     { split; [subst m3 m2; exact A|]. rewrite HQ, Hb3. simpl. rewrite Eerr. auto. }
+    assert (Habs : N.lor (m_bits m3) (eff_mask o) = m_bits m3).
+    { apply lor_absorb. rewrite Hb3. apply has_lor_r. }
     destruct (o_restart o || req) eqn:Ebr.
     + inversion E; subst m' r; clear E. unfold PostPick. destruct Hbase as (X1 & X2 & X3 & X4).
       split; [exact X1|]. split; [exact X2|]. split; [exact X3|]. split; [exact X4|].
       split; [rewrite HQ; simpl; rewrite Eerr; apply andb_true_r|].
       split; [exact HR|].
-      assert (Habs : N.lor (m_bits m3) (o_mask o) = m_bits m3).
-      { apply lor_absorb. rewrite Hb3. apply has_lor_r. }
-      destruct (m_lreq m3 || o_restart o) eqn:Elr.
-      * rewrite N.lor_0_r. unfold bits_plus_ready. rewrite Habs. split; [auto|]. split; [|left; reflexivity].
-        intro X. left. apply Hself. exact X.
-      * apply orb_false_iff in Elr. destruct Elr as [El Er]. split; [|split].
+      destruct (negb (o_restart o) && (m_rdy m3 || negb (m_lreq m3))) eqn:Elr.
+      * apply andb_true_iff in Elr. destruct Elr as [Er El]. apply negb_true_iff in Er.
+        split; [|split].
         -- intro X. exfalso. rewrite N.lor_assoc, has_ready_lor, has_refl, orb_true_r in X. discriminate.
-        -- intros _. right. split; [exact Er|].
-           intros (g & Hg & _). rewrite HQ in Hg. simpl in Hg. rewrite ri_cache0 in Hg.
-           assert (Y : m_lreq m3 = true) by (rewrite Hl3; eapply ri_lreq0; eauto).
-           congruence.
+        -- intros _. split; [exact Er|]. apply orb_true_iff in El. destruct El as [El|El].
+           ++ left. apply Hflag. exact El.
+           ++ right. apply negb_true_iff in El.
+              intros (g & Hg & _). rewrite HQ in Hg. simpl in Hg. rewrite ri_cache0 in Hg.
+              assert (Y : m_lreq m3 = true) by (rewrite Hl3; eapply ri_lreq0; eauto).
+              congruence.
         -- right. rewrite N.lor_assoc, Habs. reflexivity.
+      * rewrite N.lor_0_r. unfold bits_plus_ready. rewrite Habs. split; [auto|]. split; [|left; reflexivity].
+        intro X. rewrite Hnr3 in X. discriminate.
     + apply orb_false_iff in Ebr. destruct Ebr as [Er _].
       inversion E; subst m' r; clear E. unfold PostPick. destruct Hbase as (X1 & X2 & X3 & X4).
       split; [exact X1|]. split; [exact X2|]. split; [exact X3|]. split; [exact X4|]. apply HR. exact Er.
@@ -335,7 +352,7 @@ Definition PostNF (m' : mstate) (r : res (N * bool)) : Prop :=
       (restart = false -> q_negd (Q m') = m_negd m') /\
       (has (N.lor (m_bits m') mask) st_Ready = false -> N.lor (m_bits m') mask = m_bits m') /\
       (has (N.lor (m_bits m') mask) st_Ready = true ->
-       q_self_ready (Q m') = true \/ (restart = false /\ ~ pending (Q m'))) /\
+       restart = false /\ (q_self_ready (Q m') = true \/ ~ pending (Q m'))) /\
       bits_plus_ready (m_bits m') mask
   | Bad e => forall e', q_refused (Q m') = Some e' -> e' = e
   | Stuck => q_refused (Q m') = None
@@ -424,7 +441,7 @@ Proof.
       * inversion E; subst; clear E. destruct R1. unfold PostNF.
         split; [exact HH1|]. split; [auto|]. repeat split; auto.
         -- intro X. rewrite has_lor_r in X. discriminate.
-        -- intros _. right. split; [reflexivity|]. rewrite SQ. apply no_candidates_no_pending; auto.
+        -- right. rewrite SQ. apply no_candidates_no_pending; auto.
         -- right. reflexivity.
       * inversion E; subst. unfold PostNF. destruct R1. split; [auto|]. split; [auto|]. intros e' X. congruence.
       * inversion E; subst. eapply PostNF_stuck; eauto.
@@ -490,11 +507,11 @@ Qed.
 Definition calm (m : mstate) : Prop :=
   q_need_header (Q m) = false /\ q_refused (Q m) = None /\ q_expect (Q m) = None.
 
-Lemma read_children_ok st : forall cs m ca tot lr m' r,
-  read_children fs st cs m ca tot lr = (m', r) -> H m -> calm m ->
+Lemma read_children_ok st : forall cs m ca tot lr al m' r,
+  read_children fs st cs m ca tot lr al = (m', r) -> H m -> calm m ->
   H m' /\ Q m' = Q m /\ frame m m' /\
   match r with
-  | Good (ca', tot', lr') =>
+  | Good (ca', tot', lr', _) =>
       ca' = adv_cache fs st cs ca /\ tot <= tot' /\ (tot' = tot -> ca' = ca) /\
       (ukeys ca -> ukeys ca') /\
       ((forall g, In (true, g) ca -> lr = true) -> forall g, In (true, g) ca' -> lr' = true) /\
@@ -502,7 +519,7 @@ Lemma read_children_ok st : forall cs m ca tot lr m' r,
   | _ => True
   end.
 Proof.
-  induction cs as [|ch rest IH]; intros m ca tot lr m' r E HH (C1 & C2 & C3); simpl in E.
+  induction cs as [|ch rest IH]; intros m ca tot lr al m' r E HH (C1 & C2 & C3); simpl in E.
   - inversion E; subst. repeat split; auto using frame_refl.
   - destruct ch as [sp lo req perr|].
     + destruct (get_feature (sp, lo) fs) as [f|] eqn:Eg.
@@ -510,24 +527,24 @@ Proof.
         destruct perr.
         -- inversion E; subst. repeat split; auto; simpl; auto.
         -- assert (C' : calm (emit (EParse f) m)) by (unfold calm; rewrite B; auto).
-           destruct (IH _ _ _ _ _ _ E A C') as (I1 & I2 & I3 & I4).
+           destruct (IH _ _ _ _ _ _ _ E A C') as (I1 & I2 & I3 & I4).
            split; [exact I1|]. split; [rewrite I2; exact B|].
            split; [unfold frame in *; simpl in I3; tauto|].
-           destruct r as [[[ca' tot'] lr']|e|]; auto.
+           destruct r as [[[[ca' tot'] lr'] al']|e|]; auto.
            destruct I4 as (J1 & J2 & J3 & J4 & J5 & J6). simpl. rewrite Eg.
            split; [exact J1|]. split; [lia|]. split; [intro; lia|].
            split; [intro U; apply J4; apply ukeys_step; exact U|].
            split.
            ++ intros Hlr g Hg. apply J5 with (g := g); [|exact Hg].
-              intros g' Hg'. apply In_cache_step in Hg'. destruct Hg' as [[Eq _]|Hin].
+              intros g' Hg'. apply In_cache_step in Hg'. destruct Hg' as [Eq|Hin].
               ** inversion Eq; subst. apply orb_true_r.
               ** rewrite (Hlr g' Hin). reflexivity.
            ++ intros rq g Hg. destruct (J6 rq g Hg) as [X|X]; [|right; simpl; right; exact X].
-              apply In_cache_step in X. destruct X as [[X _]|X]; [|left; exact X].
+              apply In_cache_step in X. destruct X as [X|X]; [|left; exact X].
               inversion X; subst. right. simpl. left. apply get_feature_spec in Eg. destruct Eg as [_ Eg]. symmetry. exact Eg.
-      * destruct (IH _ _ _ _ _ _ E HH (conj C1 (conj C2 C3))) as (I1 & I2 & I3 & I4).
+      * destruct (IH _ _ _ _ _ _ _ E HH (conj C1 (conj C2 C3))) as (I1 & I2 & I3 & I4).
         split; [exact I1|]. split; [exact I2|]. split; [exact I3|].
-        destruct r as [[[ca' tot'] lr']|e|]; auto.
+        destruct r as [[[[ca' tot'] lr'] al']|e|]; auto.
         destruct I4 as (J1 & J2 & J3 & J4 & J5 & J6). simpl. rewrite Eg.
         split; [exact J1|]. split; [lia|]. split; [intro; lia|]. split; [exact J4|]. split; [exact J5|].
         intros rq g Hg. destruct (J6 rq g Hg); [left|right; simpl; right]; auto.
@@ -567,7 +584,7 @@ Proof.
     + apply (IH _ _ _ _ _ _ _ _ _ _ _ E HH (conj C1 (conj C2 C3))).
 Qed.
 
-Definition Rdy (m : mstate) : Prop := has (m_bits m) st_Ready = true -> q_self_ready (Q m) = true.
+Definition Rdy (m : mstate) : Prop := has (m_bits m) st_Ready = false.
 
 (* what holds when negotiateFeatures is entered *)
 Definition PreNF (m : mstate) (first : bool) : Prop :=
@@ -575,16 +592,16 @@ Definition PreNF (m : mstate) (first : bool) : Prop :=
   (first = true -> q_nlists (Q m) = 0 /\ m_negd m = []) /\ Rdy m.
 
 Lemma write_features_ok m first m' r :
-  write_features c m = (m', r) -> H m -> PreNF m first ->
+  write_features c m = (m', r) -> H m -> PreNF m first -> m_rdy m = false ->
   match r with
   | Good _ => H m' /\ RI true None m'
   | Bad e => PostNF m' (Bad e)
   | Stuck => False
   end.
 Proof.
-  unfold write_features. intros E HH (P1 & P2 & (C1 & C2 & C3) & P4 & P5).
+  unfold write_features. intros E HH (P1 & P2 & (C1 & C2 & C3) & P4 & P5) Hrd. unfold Rdy in P5.
   destruct (list_loop fs (m_bits m) m [] false 0 []) as [[[[[m1 ca] lr] tot] names] err] eqn:El.
-  destruct (list_loop_ok _ _ _ _ _ _ _ _ _ _ _ _ _ El HH (conj C1 (conj C2 C3))) as (A & B & (Fb & Fn & Fc & Fl & Ft) & K).
+  destruct (list_loop_ok _ _ _ _ _ _ _ _ _ _ _ _ _ El HH (conj C1 (conj C2 C3))) as (A & B & (Fb & Fn & Fc & Fl & Ft & Fr) & K).
   set (m2 := set_list ca tot lr m1) in *.
   assert (X : cl_all fs (Q m2) (EOut (WFeatures (m_bits m) names (negb err)))).
   { unfold m2. rewrite Q_set_list, B. unfold cl_all, cl_restart, cl_refuses, cl_monotone, cl_advertises.
@@ -603,33 +620,35 @@ Proof.
     + exact C1.
     + exact C3.
     + exact C2.
-    + rewrite Fb. exact P5.
+    + rewrite Fb, P5. discriminate.
     + intros g Hg. apply K4 with (g := g); [intros ? []|exact Hg].
     + intros rq g Hg. destruct (K5 rq g Hg) as [[]|Y]. rewrite K2. exact Y.
     + apply K3. apply ukeys_nil.
+    + rewrite Fr, Hrd. discriminate.
+    + rewrite Fb. exact P5.
 Qed.
 
-Lemma after_read_ok m first m' r :
-  after_read c m first = (m', r) -> H m -> RI false None m ->
+Lemma after_read_ok m first al m' r :
+  after_read c m first al = (m', r) -> H m -> RI false None m ->
   (first = true -> q_nlists (Q m) = 1 /\ m_negd m = []) -> (m_total m = 0 -> m_cache m = []) ->
   PostNF m' r.
 Proof.
   unfold after_read. intros E HH R Hf Ht.
   assert (Tail : forall m' r,
-     match m_total m, m_cache m with
+     match m_total m, al with
      | O, _ => (m, Good (st_Ready, false))
-     | _, [] => (m, Bad EOther)
+     | _, O => (m, Bad EOther)
      | _, _ => init_loop (S (length (m_cache m))) c m None
      end = (m', r) -> PostNF m' r).
   { clear E m' r. intros m' r E. destruct (m_total m) eqn:Et.
     - inversion E; subst; clear E. unfold PostNF. destruct R.
       split; [exact HH|]. split; [auto|]. repeat split; auto.
       + intro X. rewrite has_lor_r in X. discriminate.
-      + intros _. right. split; [reflexivity|]. intros (g & Hg & _). rewrite ri_cache0, (Ht eq_refl) in Hg. exact Hg.
+      + right. intros (g & Hg & _). rewrite ri_cache0, (Ht eq_refl) in Hg. exact Hg.
       + right. reflexivity.
-    - destruct (m_cache m) eqn:Ec.
+    - destruct al.
       + inversion E; subst. unfold PostNF. destruct R. split; [auto|]. split; [auto|]. intros e' Y. congruence.
-      + rewrite <- Ec in E. eapply init_loop_ok; eauto. discriminate. }
+      + eapply init_loop_ok; eauto. discriminate. }
   destruct (first && negb (match cache_get ns_StartTLS (m_cache m) with Some _ => true | None => false end)
             && negb (has (m_bits m) st_Secure)) eqn:Eforce; [|apply Tail; exact E].
   destruct (find_space ns_StartTLS fs) as [f|] eqn:Ef; [|apply Tail; exact E].
@@ -659,9 +678,13 @@ Lemma negotiate_features_ok m first m' r :
   negotiate_features c m first = (m', r) -> H m -> PreNF m first -> PostNF m' r.
 Proof.
   unfold negotiate_features. intros E HH P.
+  assert (P' : PreNF (set_rdy false m) first) by exact P.
+  assert (HH' : H (set_rdy false m)) by exact HH.
+  assert (Hrd : m_rdy (set_rdy false m) = false) by reflexivity.
+  revert E P' HH' Hrd. generalize (set_rdy false m). clear m HH P. intros m E P HH Hrd. cbv zeta in E.
   destruct (server m) eqn:Es.
   - destruct (write_features c m) as [m1 r1] eqn:Ew.
-    pose proof (write_features_ok m first m1 r1 Ew HH P) as W.
+    pose proof (write_features_ok m first m1 r1 Ew HH P Hrd) as W.
     destruct r1 as [u|e|]; [|inversion E; subst; exact W|contradiction].
     destruct W as [W1 W2]. eapply recv_loop_ok; eauto.
   - destruct P as (P1 & P2 & (C1 & C2 & C3) & P4 & P5).
@@ -681,10 +704,10 @@ Proof.
       * assert (Eit : it = mkItem false (PFeatures cs)).
         { destruct it as [[] []]; simpl in Ef; try discriminate. inversion Ef. reflexivity. }
         subst it. simpl in HQ1.
-        destruct (read_children fs (m_bits m1) cs m1 [] 0 false) as [m2 r2] eqn:Er.
+        destruct (read_children fs (m_bits m1) cs m1 [] 0 false 0) as [m2 r2] eqn:Er.
         assert (Cm1 : calm m1) by (unfold calm; rewrite HQ1; simpl; auto).
-        destruct (read_children_ok _ _ _ _ _ _ _ _ Er HH1 Cm1) as (A & B & (Fb & Fn & Fc & Fl & Ft) & K).
-        destruct r2 as [[[ca tot] lr]|e|].
+        destruct (read_children_ok _ _ _ _ _ _ _ _ _ Er HH1 Cm1) as (A & B & (Fb & Fn & Fc & Fl & Ft & Fr) & K).
+        destruct r2 as [[[[ca tot] lr] al]|e|].
         -- destruct K as (K1 & K2 & K3 & K4 & K5 & K6).
            set (m3 := set_list ca tot lr m2) in *.
            assert (R3 : RI false None m3).
@@ -696,12 +719,14 @@ Proof.
              - exact C1.
              - exact C3.
              - exact C2.
-             - rewrite Fb. exact P5.
+             - rewrite Fb. unfold Rdy in P5. simpl. rewrite P5. discriminate.
              - intros g Hg. apply K5 with (g := g); [intros ? []|exact Hg].
              - intros rq g Hg. destruct (K6 rq g Hg) as [[]|Y]. exact Y.
-             - apply K4. apply ukeys_nil. }
+             - apply K4. apply ukeys_nil.
+             - rewrite Fr. simpl. rewrite Hrd. discriminate.
+             - rewrite Fb. exact P5. }
            assert (A3 : H m3) by exact A.
-           apply (after_read_ok m3 first m' r E A3 R3).
+           apply (after_read_ok m3 first al m' r E A3 R3).
            ++ intro Ef1. destruct (P4 Ef1) as [N1 N2]. unfold m3. rewrite Q_set_list, B, HQ1. simpl.
               rewrite N1, Fn. simpl. auto.
            ++ unfold m3. simpl. intro Et. apply K3. lia.
@@ -781,7 +806,7 @@ Proof.
   intros HQ (Fb & Fn & Fc & Fl & Ft) Hb Hr He Hn Hf Hnr.
   unfold PreNF, calm, Rdy. rewrite HQ. simpl. rewrite Fb, Fn, Hn.
   split; [exact Hb|]. split; [reflexivity|]. split; [auto|]. split; [auto|].
-  intro X. congruence.
+  exact Hnr.
 Qed.
 
 Lemma frame_trans a b d : frame a b -> frame b d -> frame a d.
@@ -839,7 +864,7 @@ Proof.
     { destruct (q_need_header (Q m1)) eqn:Y; [|reflexivity]. pose proof (rel_hdr0 eq_refl). discriminate. }
     unfold PreNF, calm, Rdy.
     split; [exact rel_bits0|]. split; [exact (rel_negd0 Hh)|]. split; [auto|]. split; [exact rel_first0|].
-    intro X. congruence.
+    exact Hnr.
 Qed.
 
 Lemma negotiator_body_ok m ns istee m' r :
@@ -861,7 +886,7 @@ Qed.
 
 Definition Est (m : mstate) : Prop :=
   has (m_bits m) st_Ready = true ->
-  q_self_ready (Q m) = true \/ (q_need_header (Q m) = false /\ ~ pending (Q m)).
+  q_need_header (Q m) = false /\ (q_self_ready (Q m) = true \/ ~ pending (Q m)).
 
 (* the state is what the events determine, plus possibly Ready *)
 Definition exact_bits (b last : N) : Prop := b = last \/ b = N.lor last st_Ready.
@@ -869,34 +894,40 @@ Definition exact_bits (b last : N) : Prop := b = last \/ b = N.lor last st_Ready
 Lemma exact_bits_has b last : exact_bits b last -> has b last = true.
 Proof. intros [->| ->]; [apply has_refl | apply has_lor_l; apply has_refl]. Qed.
 
+(* ... and after an error it is that without Ready *)
+Definition final_bits (cl : rclass) (b last : N) : Prop :=
+  match cl with RErr _ => b = clear_ready last | _ => exact_bits b last end.
+
 Definition RelW (m : mstate) (ns : nstate) (istee : bool) : Prop :=
   (has (m_bits m) st_Ready = false -> Rel m ns istee) /\
   exact_bits (m_bits m) (q_last (Q m)) /\ Est m /\ q_refused (Q m) = None.
 
 Definition Final (r : result) : Prop :=
   H (r_state r) /\ established_partial (Q (r_state r)) r /\ refusal_reported (Q (r_state r)) r /\
-  has (r_bits r) (q_last (Q (r_state r))) = true /\ exact_bits (r_bits r) (q_last (Q (r_state r))).
+  final_bits (r_class r) (r_bits r) (q_last (Q (r_state r))).
 
 Lemma Final_noerr cl m :
+  (forall e, cl <> RErr e) ->
   H m -> exact_bits (m_bits m) (q_last (Q m)) -> q_refused (Q m) = None ->
   (cl = ROk -> has (m_bits m) st_Ready = true /\ Est m) ->
   Final (mkR cl (m_bits m) m).
 Proof.
-  intros HH Hx Hr Hok. pose proof (exact_bits_has _ _ Hx) as Hb.
+  intros Hne HH Hx Hr Hok. pose proof (exact_bits_has _ _ Hx) as Hb.
   unfold Final, established_partial, refusal_reported. simpl.
   split; [exact HH|]. split.
   - intro Ec. destruct (Hok Ec) as [Y1 Y2]. split; [exact Y1|]. split; [exact Hb|].
-    intro Hs. destruct (Y2 Y1) as [Z|Z]; [congruence | exact Z].
-  - split; [intros e Y; congruence | split; [exact Hb | exact Hx]].
+    destruct (Y2 Y1) as [Z1 Z2]. split; [exact Z1|].
+    intro Hs. destruct Z2 as [Z|Z]; [congruence | exact Z].
+  - split; [intros e Y; congruence |]. unfold final_bits. destruct cl; try exact Hx. exfalso. eapply Hne; reflexivity.
 Qed.
 
 Lemma session_loop_ok fuel : forall m ns istee,
   H m -> RelW m ns istee -> Final (session_loop fuel c m ns istee).
 Proof.
   induction fuel as [|k IH]; intros m ns istee HH (W1 & W2 & W3 & W4); simpl.
-  - apply Final_noerr; auto. discriminate.
+  - apply Final_noerr; auto; discriminate.
   - destruct (has (m_bits m) st_Ready) eqn:Erd.
-    + apply Final_noerr; auto.
+    + apply Final_noerr; auto; discriminate.
     + pose proof (W1 eq_refl) as R.
       destruct (c_tee c && negb istee) eqn:Etee.
       * (* the tee-wrapping call *)
@@ -941,17 +972,16 @@ Proof.
               ** exact P4.
               ** exact P3.
            ++ unfold exact_bits. rewrite P2. exact P9.
-           ++ intro X. destruct (P8 X) as [Y|[Y1 Y2]]; [left; exact Y|right].
-              split; [rewrite P5; exact Y1 | exact Y2].
+           ++ intro X. destruct (P8 X) as [Y1 Y2]. split; [rewrite P5; exact Y1 | exact Y2].
            ++ exact P3.
         -- destruct NB as (P1 & P2 & P3). unfold Final, established_partial, refusal_reported. simpl.
            split; [exact P1|]. split; [discriminate|]. split.
            ++ intros e' Y. rewrite (P3 e' Y). reflexivity.
-           ++ rewrite P2. split; [apply has_refl | left; reflexivity].
+           ++ rewrite P2. reflexivity.
         -- destruct NB as (P1 & P2 & P3). unfold Final, established_partial, refusal_reported. simpl.
            split; [exact P1|]. split; [discriminate|]. split.
            ++ intros e' Y. congruence.
-           ++ rewrite P2. split; [apply has_refl | left; reflexivity].
+           ++ rewrite P2. left. reflexivity.
 Qed.
 
 End Inv.
@@ -962,8 +992,7 @@ Lemma run_final c bits clear tls outs choices :
   let r := run c bits clear tls outs choices in
   holds (c_feats c) (c_ws c) (cl_all (c_feats c)) (mon0 bits) (trace r) /\
   let q := final (c_feats c) (c_ws c) (mon0 bits) (trace r) in
-  established_partial q r /\ refusal_reported q r /\ has (r_bits r) (q_last q) = true /\
-  exact_bits (r_bits r) (q_last q).
+  established_partial q r /\ refusal_reported q r /\ final_bits (r_class r) (r_bits r) (q_last q).
 Proof.
   unfold run.
   pose proof (session_loop_ok c bits (fuel_for clear tls) (init_state bits clear tls outs choices) (mkNS true true) false) as F.
@@ -971,7 +1000,7 @@ Proof.
   - exact I.
   - unfold RelW, Est. simpl. split; [|split; [left; reflexivity|split; [|reflexivity]]].
     + intros _. constructor; simpl; auto; discriminate.
-    + intros _. right. split; [reflexivity|]. intros (g & [] & _).
+    + intros _. split; [reflexivity|]. right. intros (g & [] & _).
 Qed.
 
 (* ------------------------------------------------------------------ the clauses, one by one *)
@@ -996,7 +1025,7 @@ Proof. eapply holds_impl; [|apply all_clauses]. unfold cl_all. tauto. Qed.
 
 Lemma clause_monotone :
   holds fs ws cl_monotone (mon0 bits) (trace r) /\
-  has (r_bits r) (q_last (final fs ws (mon0 bits) (trace r))) = true.
+  final_bits (r_class r) (r_bits r) (q_last (final fs ws (mon0 bits) (trace r))).
 Proof.
   split; [eapply holds_impl; [|apply all_clauses]; unfold cl_all; tauto|].
   apply (run_final c bits clear tls outs choices).
@@ -1203,28 +1232,40 @@ Proof.
   rewrite X. eapply has_trans; [exact Hm|]. simpl. unfold after_neg. apply has_refl.
 Qed.
 
+(* the final state is exactly what the Negotiate calls determine: plus possibly
+   Ready when the run did not end in an error, without Ready when it did *)
+Lemma final_bits_accounted : final_bits (r_class r) (r_bits r) (acc_bits bits (trace r)).
+Proof.
+  pose proof (proj2 (clause_monotone c bits clear tls outs choices)) as X. fold r fs ws in X.
+  rewrite last_is_acc in X. exact X.
+Qed.
+
+(* a run that ends in an error never reports Ready *)
+Lemma error_never_ready e : r_class r = RErr e -> has (r_bits r) st_Ready = false.
+Proof.
+  intro Ec. pose proof final_bits_accounted as X. rewrite Ec in X. simpl in X. rewrite X. apply has_clear_ready.
+Qed.
+
 Lemma final_bits_contain_neg pre post f st o :
+  (forall e, r_class r <> RErr e) ->
   trace r = pre ++ ENeg f st o :: post -> has (r_bits r) (after_neg st o) = true.
 Proof.
-  intro E. destruct (clause_monotone c bits clear tls outs choices) as [Hm Hf]. fold r fs ws in Hm, Hf.
-  rewrite E in Hm, Hf. rewrite final_app in Hf. simpl in Hf.
+  intros Hne E. destruct (clause_monotone c bits clear tls outs choices) as [Hm Hf]. fold r fs ws in Hm, Hf.
+  assert (Hf' : has (r_bits r) (q_last (final fs ws (mon0 bits) (trace r))) = true).
+  { apply exact_bits_has. unfold final_bits in Hf. destruct (r_class r); try exact Hf. exfalso. eapply Hne; reflexivity. }
+  clear Hf. rewrite E in Hm, Hf'. rewrite final_app in Hf'. simpl in Hf'.
   apply holds_app in Hm. destruct Hm as [_ Hm]. simpl in Hm. destruct Hm as [_ Hm].
-  apply last_grows in Hm. eapply has_trans; [exact Hf|]. eapply has_trans; [exact Hm|].
+  apply last_grows in Hm. eapply has_trans; [exact Hf'|]. eapply has_trans; [exact Hm|].
   simpl. unfold after_neg. apply has_refl.
 Qed.
 
-Lemma final_bits_contain_initial : has (r_bits r) bits = true.
+Lemma final_bits_contain_initial :
+  (forall e, r_class r <> RErr e) -> has (r_bits r) bits = true.
 Proof.
-  destruct (clause_monotone c bits clear tls outs choices) as [Hm Hf]. fold r fs ws in Hm, Hf.
+  intro Hne. destruct (clause_monotone c bits clear tls outs choices) as [Hm Hf]. fold r fs ws in Hm, Hf.
+  assert (Hf' : has (r_bits r) (q_last (final fs ws (mon0 bits) (trace r))) = true).
+  { apply exact_bits_has. unfold final_bits in Hf. destruct (r_class r); try exact Hf. exfalso. eapply Hne; reflexivity. }
   apply last_grows in Hm. simpl in Hm. eapply has_trans; eauto.
-Qed.
-
-(* the final state is exactly what the Negotiate calls determine, plus possibly Ready *)
-Lemma final_bits_accounted :
-  r_bits r = acc_bits bits (trace r) \/ r_bits r = N.lor (acc_bits bits (trace r)) st_Ready.
-Proof.
-  pose proof (run_final c bits clear tls outs choices) as (_ & _ & _ & _ & X). fold r fs ws in X.
-  unfold exact_bits in X. rewrite last_is_acc in X. exact X.
 Qed.
 
 End Monotone.
@@ -1254,9 +1295,9 @@ Lemma established_when_no_self_ready c bits clear tls outs choices :
   let r := run c bits clear tls outs choices in
   let q := final (c_feats c) (c_ws c) (mon0 bits) (trace r) in
   r_class r = ROk ->
-  has (r_bits r) st_Ready = true /\
-  (self_ready (trace r) = false -> q_need_header q = false /\ ~ pending q).
+  has (r_bits r) st_Ready = true /\ q_need_header q = false /\
+  (self_ready (trace r) = false -> ~ pending q).
 Proof.
-  intros r q Hok. destruct (clause_established_partial c bits clear tls outs choices Hok) as (A & _ & B).
-  split; [exact A|]. intro Hs. apply B. rewrite final_self_ready. simpl. exact Hs.
+  intros r q Hok. destruct (clause_established_partial c bits clear tls outs choices Hok) as (A & _ & B & C).
+  split; [exact A|]. split; [exact B|]. intro Hs. apply C. rewrite final_self_ready. simpl. exact Hs.
 Qed.
